@@ -43,6 +43,9 @@ CLAIMED = {
  "C19": dict(tech="await-marking of CFG regions (cooperative-scheduling atomicity) in the batching code; index/value pairing by def-use; sibling agreement of the cache's get/set key derivation",
              text="Decides, for all interleavings at once, that the enqueue region and the snapshot region of the request batching contain no task switch, that batch position i belongs to request id i on both the text and the result side, that results are stored before the event is set, and that the cache wrapper computes/stores/returns paired and in input order. Model values, hash collisions and timing are not decided.",
              ref="DESIGN.md C19"),
+ "C11": dict(tech="writer/reader table agreement of the state (de)serialiser: emitted tags vs decoder branches; type coverage from dataclass field annotations reachable from State and from the return types of the expression-function table; recursive-encoding shape of every encoder branch; field agreement of the hand-written Action pair; index maintenance of the clean-up via CFG",
+             text="Decides necessary conditions of 'serialising succeeds for every reachable state and restores every field': tag agreement, encoder coverage of every type a State can hold (found F9a regex: repaired; F9b ComparisonExpression: known), recursive encoding in every branch (F10: repaired), Action field agreement, and that the age-based clean-up keeps flow_id_states / child lists / actions in step and only collects done, inactive, old instances. Behavioural equality after restore or ageing is not decided.",
+             ref="DESIGN.md C11"),
 }
 NA = {
  "C18": "equality of string results over all chunkings of a stateful transducer; no structural necessary condition that is not a brittle proxy (DESIGN.md C18)",
